@@ -323,6 +323,7 @@ def finish(mod, tier: str, seed: int, merged: dict, wall: float, workers_failed:
             evaluations=int(merged["evaluations"]),
             distinct_nontrivial=len(merged["nontrivial"]),
             rule=getattr(mod, "RULE", ""),
+            case_grid_rounds=int(os.environ.get("VERIF_ROUNDS", "0")) or (getattr(mod, "THOROUGH_ROUNDS", 1) if tier == "thorough" else 1),
             samples=merged["samples"] or [],
             monitor_counters=merged["counters"],
             ambiguous_band_cases=merged["ambiguous"],
